@@ -7,7 +7,7 @@ from pyvc.base import VC
 
 LEVEL = "other"
 # obligations whose failure is a semantic fact about the tree (not a shape that is no longer recognized): reported as violations on their own
-DEFINITE = ("no_unlisted_source_of_nondeterminism", "sort_key_mentions_the_whole_grouping_key")
+DEFINITE = ("sort_key_mentions_the_whole_grouping_key",)
 FLOOR = 25
 EXPLANATION = ("Frame/effect contracts discharged over the AST: (a) no source of nondeterminism reaches a computed value - iteration over a set / frozenset "
                "(hash-seed dependent) is allowed only inside sorted() or for pure membership bookkeeping, and id(), hash(), random, time, datetime.now(), "
